@@ -93,6 +93,8 @@ func runC18(c *an.Ctx) {
 	}
 	// --- C18.a
 	checkNoDroppedRequest(c, "C18.a", s)
+	checkDispatcher(c, "C18.a", s)
+	checkScoreDecay(c, "C18.d")
 
 	// --- C18.b remainder re-request
 	dt, df := c.T(s.doReq), c.F(s.doReq)
